@@ -31,7 +31,7 @@ ASSUMPTIONS = [
     "fields inside config types are not enumerated by get_all_fields and are outside this property's path set",
 ]
 REQUIRED = ["cmdline:empty", "cmdline:subset", "ignore:none", "ignore:one", "ignore:list", "has:bool", "depth>=2",
-            "arg:invalid", "arg:valid", "setitem-vs-setattr", "has:include"]
+            "arg:invalid", "arg:valid", "setitem-vs-setattr", "has:include", "schema-extended-after-enumeration"]
 LEVEL_TEXT = (
     "Generated schemas, states and command lines; agreement of the naming routes is checked pairwise and the "
     "override against a reference model; kills mutants that ignore 'ignore', build dest with '-', or drop a prefix."
@@ -337,3 +337,43 @@ def run_case(case, R):
             R.check(cc.is_value_defined(cfg, ".".join(p)), "override", "defined", "%s not user-defined after being overridden" % ".".join(p))
         if any(STYPE[n["kind"]] is bool for _, n in fields) and depth >= 2 and argv and len(effective) < len(fields):
             R.nontrivial = True
+
+        # ---- (d) the schema grows after it has been enumerated: every view must follow ---------------------------------
+        # round 1 touches nested schemas only (the root schema object itself is not written to), round 2 the root
+        nested_scopes = [p for p, n in enum if n["kind"] == "schema"]
+        plain_scopes = {()} | set(nested_scopes)
+        simple = [(p, n) for p, n in enum if n["kind"] in ("int", "str", "bool") and p[:-1] in plain_scopes]
+        rounds = [(sorted(nested_scopes, key=len, reverse=True), [t for t in simple if len(t[0]) > 1][:2]), ([()], [t for t in simple if len(t[0]) == 1][:1])]
+        for rno, (scopes, replaced) in enumerate(rounds):
+            cc.get_all_fields(world.schema)  # (an enumeration from the root precedes every extension)
+            cc.generate_argparse_parser(world.schema)
+            late = []
+            for sp in scopes:
+                owner = world.schema
+                for k in sp:
+                    owner = owner._fields[k]
+                new = cc.IntField(default=3)
+                setattr(owner, "zzlate%d" % rno, new)
+                late.append((".".join(sp + ("zzlate%d" % rno,)), new))
+            for p, n in replaced:
+                owner = world.schema
+                for k in p[:-1]:
+                    owner = owner._fields[k]
+                new = cc.IntField(default=4)
+                setattr(owner, p[-1], new)  # the key is declared again with another field object
+                late.append((".".join(p), new))
+            if not late:
+                continue
+            R.label("schema-extended-after-enumeration")
+            listed = {p: f for p, _, f in cc.get_all_fields(world.schema)}
+            dests2 = {a.dest for a in cc.generate_argparse_parser(world.schema)._actions}
+            fresh = world.schema()
+            for dotted, new in late:
+                R.check(listed.get(dotted) is new, "enumerate", "after-extension", lambda: "after %s was declared, get_all_fields reports %r for it" % (dotted, listed.get(dotted)))
+                try:
+                    same = world.schema[dotted]
+                except Exception as exc:
+                    same = exc
+                R.check(same is new, "resolve", "after-extension", lambda: "schema[%r] is %r, the declared field is %r" % (dotted, same, new))
+                R.check(dotted in dests2, "parser", "after-extension", lambda: "no option with destination %r in a parser generated after the field was declared" % dotted)
+                R.check(dotted in fresh, "resolve", "contains:after-extension", lambda: "%r not in a configuration built after the field was declared" % dotted)
